@@ -330,7 +330,8 @@ class CHText:
         if self is other:
             return True
 
-        if isinstance(other, type(self)):
+        if isinstance(other, CHText):
+            # (any CHText: objects of different derived classes are texts too)
             if len(self.chunks) != len(other.chunks):
                 return False
             return all(p0 == p1 for p0, p1 in zip(self.chunks, other.chunks))
